@@ -1,4 +1,5 @@
 import Ledger.Proofs.SqlMovesExpr
+import Ledger.Proofs.SqlValues
 import Ledger.Generated.WriteSql
 
 /-!
@@ -55,12 +56,6 @@ theorem lookup_unq_a (env : Env) (av dv : List Value) (src : Option (String × N
     (h : lookupIn acCols av c = some v) : lookupColumn (upEnv env av dv src) "" c = .ok v := by
   simp [lookupColumn, Env.scopes, upEnv, lookupUnqualified, h]
   rfl
-
-theorem cmpInt_lt_iff (a b : Int) : cmpInt a b = Ordering.lt ↔ a < b := by
-  unfold cmpInt
-  by_cases h : a < b
-  · simp [h]
-  · by_cases e : a = b <;> simp [h, e]
 
 /-- `LEAST` over two timestamps, NULLs ignored -/
 def leastOpt (d : Option Int) (a : Int) : Int :=
